@@ -283,16 +283,11 @@ def r3_structure(ctx):
     want = dig(hm(dig(hm(dig(hm(dig(hm(k0, enc('date'))), enc('region'))), enc('service'))), ('const', b'aws4_request')))
     ctx.check(r == want, 'C16.R3', f'{func_label(fn)}|signing-key-chain', loc(fn, fn.node), "signing key = HMAC(HMAC(HMAC(HMAC('AWS4'+key, date), region), service), 'aws4_request')", f'signing key chain deviates: {show(r, limit=300)}')
     fn = f('_make_canonical_headers')
-    ok = False
-    for g in ast.walk(fn.node):
-        if isinstance(g, (ast.GeneratorExp, ast.ListComp)) and isinstance(g.elt, ast.JoinedStr) and len(g.generators) == 1:
-            tgt = g.generators[0].target
-            it = g.generators[0].iter
-            v = g.elt.values
-            if isinstance(tgt, ast.Tuple) and len(tgt.elts) == 2 and all(isinstance(e, ast.Name) for e in tgt.elts) and isinstance(it, ast.Call) and isinstance(it.func, ast.Attribute) and it.func.attr == 'items' and len(v) == 3:
-                a_, c_, b_ = v
-                ok = isinstance(a_, ast.FormattedValue) and isinstance(a_.value, ast.Name) and a_.value.id == tgt.elts[0].id and isinstance(c_, ast.Constant) and c_.value == ':' and isinstance(b_, ast.FormattedValue) and isinstance(b_.value, ast.Name) and b_.value.id == tgt.elts[1].id
-    ok = ok and any(isinstance(n, ast.AugAssign) and isinstance(n.value, ast.Constant) and n.value.value == '\n' for n in ast.walk(fn.node))
+    hp = [x.arg for x in fn.node.args.posonlyargs + fn.node.args.args]
+    hterm = strip_sites(Evaluator(corpus, depth=2).run(fn))
+    H = ('param', hp[0]) if hp else None
+    line = ('fstr', (('fmt', ('elem', H), ''), ('const', ':'), ('fmt', ('elem', ('call', ('attr', H, 'values'), (), ())), '')))
+    ok = hterm == ('bin', 'Add', ('call', ('attr', ('const', '\n'), 'join'), (('seq*', line),), ()), ('const', '\n'))
     ctx.check(ok, 'C16.R3', f'{func_label(fn)}|canonical-headers-format', loc(fn, fn.node), "canonical headers = 'name:value' lines, each terminated by \\n", 'canonical headers format changed')
     s3 = corpus.cls('s3c', 'S3Compatible')
     pr = s3.methods['_prepare_request']
